@@ -1,4 +1,5 @@
 import SqlObjVerif.Model.Tx
+import SqlObjVerif.Model.TxLazy
 import SqlObjVerif.Model.DrvUtil
 /-! Driver for C07 (stateful).  Requests:
     `init <0|1>` | `create <P|T> k v0 v1` | `get <P|T> k <0|1>` | `read <P|T> j c` | `set <P|T> j c v` |
@@ -79,13 +80,56 @@ def parseOp (ws : List String) : Option Op :=
   | ["begin"] => some .begin
   | _ => none
 
-def handle (s : St) (line : String) : St × String :=
+/-! lazy mode: lines starting with `L`: `L init` | `L insert k v0 v1` | `L get <P|T> k` | `L assign <P|T> j c v` |
+    `L sync <P|T> j` | `L read <P|T> j c` | `L expire <P|T> j` | `L commit <0|1>` | `L rollback` | `L begin` | `L dump` -/
+namespace Lz
+open SqlObjVerif.TxLazy
+
+def side? : String → Option TxLazy.Side
+  | "P" => some .P | "T" => some .T | _ => none
+
+def showOut : TxLazy.Out → String
+  | .ok => "ok" | .inst j => "inst " ++ toString j | .val v => "val " ++ toString v | .notFound => "NotFound"
+  | .dup => "Duplicate" | .locked => "Locked" | .assert => "Assert" | .bad => "bad"
+
+def parseOp (ws : List String) : Option TxLazy.Op :=
+  match ws with
+  | ["insert", k, v0, v1] => do
+    let k ← k.toNat?; let v0 ← v0.toInt?; let v1 ← v1.toInt?
+    pure (.insert k fun c => if c = 0 then v0 else if c = 1 then v1 else 0)
+  | ["get", sd, k] => do pure (.get (← side? sd) (← k.toNat?))
+  | ["assign", sd, j, c, v] => do pure (.assign (← side? sd) (← j.toNat?) (← c.toNat?) (← v.toInt?))
+  | ["sync", sd, j] => do pure (.sync (← side? sd) (← j.toNat?))
+  | ["read", sd, j, c] => do pure (.read (← side? sd) (← j.toNat?) (← c.toNat?))
+  | ["expire", sd, j] => do pure (.expire (← side? sd) (← j.toNat?))
+  | ["commit", b] => some (.commit (b == "1"))
+  | ["rollback"] => some .rollback
+  | ["begin"] => some .begin
+  | _ => none
+
+def showRows (f : Nat → Option TxLazy.Row) : String :=
+  String.join ((List.range 8).filterMap fun k => (f k).map fun r =>
+    " " ++ toString k ++ "=" ++ toString (r 0) ++ "," ++ toString (r 1))
+
+def dump (s : TxLazy.St) : String :=
+  "db" ++ showRows s.db ++ " | view" ++ (if s.obsolete then " obsolete" else showRows s.txv)
+
+end Lz
+
+def handle2 (st : St × TxLazy.St) (line : String) : (St × TxLazy.St) × String :=
   match words line with
-  | ["init", b] => (init (b == "1"), "ok")
-  | ["dump"] => (s, dump s)
+  | "L" :: rest =>
+    match rest with
+    | ["init"] => ((st.1, TxLazy.init), "ok")
+    | ["dump"] => (st, Lz.dump st.2)
+    | ws => match Lz.parseOp ws with
+      | some op => let r := TxLazy.step st.2 op; ((st.1, r.1), Lz.showOut r.2)
+      | none => (st, "bad-op")
+  | ["init", b] => ((init (b == "1"), st.2), "ok")
+  | ["dump"] => (st, dump st.1)
   | ws =>
     match parseOp ws with
-    | some op => let r := step s op; (r.1, showOut r.2)
-    | none => (s, "bad-op")
+    | some op => let r := step st.1 op; ((r.1, st.2), showOut r.2)
+    | none => (st, "bad-op")
 
-def main : IO Unit := loop handle (init true)
+def main : IO Unit := loop handle2 (init true, TxLazy.init)
